@@ -96,6 +96,35 @@ theorem run_append (env : Env) : ∀ (as bs : List Bytes) (c : Cfg),
     | none => rfl
     | some c' => exact run_append env r bs c'
 
+/-- `handle_feat` for a CodeUtils that starts with the default features (whatever its style flags) -/
+theorem handleFrom_feat (env : Env) (c0 : Cfg) (hc0 : c0.features = env.defaults) (args : List Bytes) (c : Cfg)
+    (h : handleFrom env c0 args = some c) (i : Nat) (hi : i < env.defaults.length) :
+    feat c i =
+      if c.template = env.slimName ∧ i = env.iDeepEqual then false
+      else (lastSetting env i args).getD (env.defaults.getD i false) := by
+  unfold handleFrom at h
+  cases hr : run env c0 args with
+  | none => simp [hr] at h
+  | some c1 =>
+    simp only [hr] at h
+    split at h
+    · simp at h
+    · simp only [Option.some.injEq] at h
+      obtain ⟨hl, hf⟩ := run_feat env args c0 c1 hr i (by rw [hc0]; exact hi)
+      have hfi : feat c0 i = env.defaults.getD i false := by simp [feat, hc0]
+      rw [hfi] at hf
+      subst h
+      unfold slimRule
+      by_cases ht : c1.template = env.slimName
+      · simp only [ht, if_true, true_and]
+        simp only [feat] at hf ⊢
+        rw [getD_setAt c1.features env.iDeepEqual i false (by rw [hl, hc0]; exact hi)]
+        by_cases hd : env.iDeepEqual = i
+        · simp [hd]
+        · have : ¬ i = env.iDeepEqual := fun e => hd e.symm
+          simp only [hd, this, if_false]; exact hf
+      · simp [ht, hf]
+
 /-- the names of the options as HandleOptions sees them -/
 def optName (a : Bytes) : Bytes := (splitEq a).1
 
